@@ -26,8 +26,8 @@ RULE = (
     "single-topology cases: all isobar shapes with 2-5 final states x all distinct"
     " relabelings of final-state ids (5-body: 2 per shape in quick, 12 per shape in thorough, cse=True only) x"
     " swap of intermediate edge ids x cse {F,T}; adapter cases: every subset of <= 3 of the"
-    " distinct three-body topologies, the permuted sets of each 3-/4-body shape (5-body"
-    " thorough); events: 7-point lattice per mass configuration {generic, massless, near"
+    " distinct three-body topologies, the permuted sets of each 3-/4-body shape;"
+    " events: 7-point lattice per mass configuration {generic, massless, near"
     " threshold, boosted frame}; non-trivial = case with >= 1 helicity-angle name bound;"
     " distinct = distinct (topology set, cse, mass configuration)"
 )
